@@ -27,7 +27,28 @@ def _rank(values):
     return order
 
 
-def task_lines(recorded, rows, refs, pcount, margin, tag):
+def all_primary(rp, qp, qid_, params):
+    """every primary correlation of one query, computed with the real building blocks outside the coordinator (used when the
+    coordinator did not dispatch all 2 x references of them: a strand or a reference it never looked at is invisible in
+    its own log, but its peaks still belong to "all correlation peaks of the query")"""
+    from src.parsers.cmap_reader import CmapReader
+    from src.correlation.sequence_generator import SequenceGenerator
+    with open(rp) as f:
+        refs = CmapReader().readReferences(f)
+    with open(qp) as f:
+        qrys = [q.trim() for q in CmapReader().readQueries(f)]
+    q = next(x for x in qrys if int(x.moleculeId) == qid_)
+    sg = SequenceGenerator(params["r1"], params["b1"])
+    out = []
+    for r in refs:
+        for rev in (False, True):
+            ia = q.getInitialAlignment(r, sg, params["md"], params["p"], reverseStrand=rev)
+            out.append({"ev": "Primary", "ref": int(r.moleculeId), "rev": rev,
+                        "peaks": [[int(p.position), float(p.score), float(p.height)] for p in ia.peaks]})
+    return out
+
+
+def task_lines(recorded, rows, refs, pcount, margin, tag, files=None, params=None):
     by_task = {}
     for ev in sorted(recorded, key=lambda e: (e["pid"], e["seq"])):
         if ev.get("task") is None:
@@ -38,6 +59,13 @@ def task_lines(recorded, rows, refs, pcount, margin, tag):
         returned[int(row.queryId)] = float(row.confidence)
     lines = []
     for (pid, task), evs in by_task.items():
+        rebuilt = False
+        if files and sum(1 for e in evs if e["ev"] == "Primary") != 2 * len(refs):
+            try:
+                evs = all_primary(files[0], files[1], task[0], params) + [e for e in evs if e["ev"] != "Primary"]
+                rebuilt = True
+            except Exception:       # noqa: BLE001
+                pass
         scores = [p[1] for e in evs if e["ev"] == "Primary" for p in e["peaks"]]
         sr = _rank(scores)
         confs = [e["conf"] for e in evs if e["ev"] == "Row"] + ([returned[task[0]]] if task[0] in returned else [])
@@ -55,7 +83,8 @@ def task_lines(recorded, rows, refs, pcount, margin, tag):
             elif e["ev"] == "Cands":
                 out.append({"e": "Cands", "n": len(e["cands"])})
         res = {"has": task[0] in returned, "conf": cr[returned[task[0]]] if task[0] in returned else 0}
-        lines.append({"refs": refs, "pcount": pcount, "ev": out, "res": res, "tag": dict(tag, query=task[0])})
+        lines.append({"refs": refs, "pcount": pcount, "ev": out, "res": res, "rebuilt": rebuilt,
+                      "tag": dict(tag, query=task[0])})
     return lines
 
 
@@ -72,8 +101,10 @@ def one_input(args):
         if res["status"] != "ok":
             return {"status": res["status"], "lines": [], "log": res["log"][-300:]}
         refs = sorted(r["id"] for r in inp["refs"] if r["x"])
+        params = {"r1": int(extra.get("-r1", 1400)), "b1": int(extra.get("-b1", 1)), "md": int(extra.get("-md", 20000)),
+                  "p": int(extra.get("-p", 3))}
         lines = task_lines(res["recorded"], res["rows"].rows, refs, int(extra.get("-p", 3)), int(extra.get("-ma", 16000)),
-                           {"input": idx, "extra": extra})
+                           {"input": idx, "extra": extra}, files=(rp, qp), params=params)
         return {"status": "ok", "lines": lines, "log": ""}
     finally:
         shutil.rmtree(wd, ignore_errors=True)
